@@ -334,6 +334,13 @@ static int insertNode(KSI_TreeBuilder *builder, KSI_TreeNode *node, int at) {
 		res = insertNode(builder, root, at + 1);
 		if (res != KSI_OK) {
 			KSI_pushError(builder->ctx, res, NULL);
+			/* Undo the join: the subtree in the slot stays in the builder and the new
+			 * node still belongs to the caller - only the joined node itself is freed. */
+			root->leftChild = NULL;
+			root->rightChild = NULL;
+			pSlot->parent = NULL;
+			node->parent = NULL;
+			builder->stack[at] = pSlot;
 			goto cleanup;
 		}
 
